@@ -52,7 +52,8 @@ func (f *fakeFile) ReadAt(p []byte, off int64) (int, error) { return 0, io.EOF }
 func (f *fakeFile) GetNextRegionOffset(off int64, rt filesystem.RegionType) (int64, error) {
 	return 0, io.EOF
 }
-func (f *fakeFile) Sync() error { return nil }
+func (f *fakeFile) Sync() error         { return nil }
+func (f *fakeFile) Len() (int64, error) { return 0, nil }
 func (f *fakeFile) WriteAt(p []byte, off int64) (int, error) {
 	f.b.calls++
 	f.b.lastArg = fmt.Sprintf("WriteAt %d %d", len(p), off)
